@@ -1,3 +1,4 @@
+import Martian.Props.C04.Facts
 import Martian.Lemmas.Tunnel
 /-!
 C04 — blind CONNECT tunnels are byte-transparent both ways and propagate end-of-stream.
